@@ -1366,7 +1366,13 @@ fn resolve_types_and_aliases(
     let mut aliases_report = AnalyzeReport::default();
 
     let mut pass_count = 0usize;
-    let max_passes = 100usize; // prevent infinite loops
+
+    // No alias chain and no nesting of (non-recursive) definitions is longer than the
+    // number of definitions, so further passes only copy the symbols once more. A
+    // definition that never counts as resolved (an alias of a built-in type, an unknown
+    // name) used to force all 100 passes, and each pass doubles the symbols of a type
+    // that refers to itself twice.
+    let max_passes = (types.len() + aliases.len() + 1).min(100);
 
     while pass_count < max_passes && !(types.is_resolved() && aliases.is_resolved()) {
         pass_count += 1;
